@@ -652,7 +652,15 @@ static int32_t handle_signal_def(struct jls_core_s * self) {
     ROE(jls_buf_rd_skip(self->buf, 92));
     ROE(jls_buf_rd_str(self->buf, (const char **) &s->name));
     ROE(jls_buf_rd_str(self->buf, (const char **) &s->units));
-    if (0 == jls_core_signal_def_validate(s)) {  // validate passed
+    bool fsr_sizes_ok = true;
+    if (s->signal_type == JLS_SIGNAL_TYPE_FSR) {
+        // the block and summary sizes of a stored definition are divisors and buffer sizes everywhere
+        fsr_sizes_ok = s->samples_per_data && s->sample_decimate_factor
+            && s->entries_per_summary && s->summary_decimate_factor
+            && (s->samples_per_data >= s->sample_decimate_factor)
+            && (s->entries_per_summary >= (s->samples_per_data / s->sample_decimate_factor));
+    }
+    if (fsr_sizes_ok && (0 == jls_core_signal_def_validate(s))) {  // validate passed
         s->signal_id = signal_id;  // indicate that this signal is valid
         JLS_LOGD1("Found signal %d : %s", (int) signal_id, s->name);
     } else {
